@@ -389,6 +389,7 @@ def element_store_indices(rep, F, tag):
         forms = [f for f in F.fns if f.name in ('update_matrix', 'update_vector') and f.file.endswith('data_updating.rs') and f.dk == 'AssocFn']
         R.check(len(forms) >= 11, 'forms' + tag, 'only %d update forms found' % len(forms))
         n_store = n_deleg = 0
+        storing = set()
         for f in forms:
             st = strip_generics(f.impl_self or '')
             vec = f.name == 'update_vector'
@@ -404,6 +405,7 @@ def element_store_indices(rep, F, tag):
                         continue
                     I = m.group(1)
                     n_store += 1
+                    storing.add((f.name, st))
                     ln = 'len(arg2)' if vec else 'len(arg2.nzval)'
                     ok_b = val.get('le(%s, %s)' % (ln, I)) == 0 or val.get('lt(%s, %s)' % (I, ln)) == 1
                     R.check(ok_b, 'bound-same-index|%s|%s%s' % (f.name, st[:30], tag),
@@ -422,7 +424,7 @@ def element_store_indices(rep, F, tag):
                 want = '%s(zip(iter(self.0), iter(self.1)), arg2, arg3, arg4%s)' % (f.name, '' if vec else ', arg5')
                 n_deleg += 1
                 R.check(rets == [want], 'tuple-delegates|%s%s' % (f.name, tag), '%s for %s returns %s, expected %s' % (f.name, st, rets, want), f.loc())
-        R.check(n_store >= 4, 'count' + tag, 'only %d element stores analysed' % n_store)
+        R.check(len(storing) >= 2 and n_store >= 2, 'count' + tag, 'only %d element stores in %d index forms analysed (matrix and vector index form expected)' % (n_store, len(storing)))
 
     R.guard(body)
 
